@@ -206,3 +206,29 @@ package nilness
 // inner nilness as its outer nilness.
 //@   at call (*state).set on "s.set(v, s.get(tuple.Tag))" assert [tsdefault_same] arg1 == v && (forall c int :: (c == 0 || c == 1) && gam(val(s.m, tuple.Tag).Outer, c) ==> gam(arg2.Outer, c)) && (forall c int :: (c == 0 || c == 1) && gam(val(s.m, tuple.Tag).Inner, c) ==> gam(arg2.Inner, c))
 //@   at call (*state).setOuter on "s.setOuter(v, s.get(tuple.Tag).Inner)" assert [tscase_same] !types.IsInterface(v.Type()) || typeparams.IsTypeParam(v.Type())
+
+// processPhis (second closure of impl): the phis at the head of a block are one PARALLEL
+// assignment: along the i-th in-edge every phi takes the value its i-th operand had BEFORE any
+// phi of the block was assigned (the operand may itself be a phi of the same block, e.g. after
+// `p, q = q, p` in a loop).
+//@ ghost vtype(v ir.Value) types.Type = v.Type()
+//@ ghost phiPrefix(instrs []ir.Instruction, k int) bool = k < 0 || (istype(instrs[k], *ir.Phi) && phiPrefix(instrs, k-1))
+//@ lemma phiPrefix_down(instrs []ir.Instruction, k int, j int)
+//@   requires 0 <= j && j <= k && phiPrefix(instrs, k)
+//@   ensures  istype(instrs[j], *ir.Phi)
+//@   induct   k
+//@   trigger  phiPrefix(instrs, k), instrs[j]
+//@ func impl$2
+//@   uses     phiPrefix_down
+//@   requires b != nil && 0 <= i
+//@   requires forall x int, y int :: {b.Instrs[x], b.Instrs[y]} 0 <= x && x < y && y < len(b.Instrs) ==> b.Instrs[x] != b.Instrs[y]
+//@   nosafe   all
+//@   may_panic
+//@   modifies heap
+//@   ensures  [parallel] forall k int :: {b.Instrs[k]} 0 <= k && k < len(b.Instrs) && phiPrefix(b.Instrs, k) && typeutil.IsPointerLike(vtype(astype(b.Instrs[k], *ir.Phi))) && val(s.m, astype(b.Instrs[k], *ir.Phi).Edges[i]) != mk(ValueNilness, 0, 0) ==> val(result.m, astype(b.Instrs[k], *ir.Phi)) == val(s.m, astype(b.Instrs[k], *ir.Phi).Edges[i])
+//@   loop 1   index q
+//@   loop 1   invariant [run]  phiPrefix(b.Instrs, q-1) && len(vals) == q
+//@   loop 1   invariant [same] s == old(s)
+//@   loop 1   invariant [vals] forall k int :: {vals[k]} 0 <= k && k < q ==> vals[k] == val(s.m, astype(b.Instrs[k], *ir.Phi).Edges[i])
+//@   loop 2   index m
+//@   loop 2   invariant [done] forall k int :: {b.Instrs[k]} 0 <= k && k < m && typeutil.IsPointerLike(vtype(astype(b.Instrs[k], *ir.Phi))) && vals[k] != mk(ValueNilness, 0, 0) ==> val(s.m, astype(b.Instrs[k], *ir.Phi)) == vals[k]
